@@ -522,6 +522,16 @@ func c20Wiring(c *Ctx, purego bool) {
 				ok = ok && m
 			}
 			ok = ok && n == 1 && globalsTouched(f) == 0
+			// … and does nothing else: no store, no branch (a fix-up after the call would overwrite the result)
+			for _, blk := range f.Blocks {
+				for _, ins := range blk.Instrs {
+					switch ins.(type) {
+					case *ssa.Store, *ssa.If, *ssa.MapUpdate, *ssa.Send, *ssa.Go, *ssa.Defer, *ssa.Panic:
+						ok = false
+					}
+				}
+			}
+			ok = ok && len(f.Blocks) == 1
 		}
 		r.Check(ok, "C20.build-tags.noasm-delegates", "pkg/curl/transform_noasm.go", "without assembly, transform(lto,hto,lfrom,hfrom) = transformGeneric(lto,hto,lfrom,hfrom) and touches no package-level state")
 	}
